@@ -26,6 +26,7 @@ package mint
 //@ modifies mint.Minter
 //@ ensures [records_block_time] err == nil ==> mint.Minter.PreviousBlockTime != nil && deref(mint.Minter.PreviousBlockTime) == blockTime
 //@ ensures [keeps_initialized_flag] err == nil ==> mint.Minter.Initialized == old(mint.Minter.Initialized)
+//@ ensures [never_fails_once_the_minter_exists] has(old(mint.Minter)) ==> err == nil
 
 //@ func BeginBlocker(ctx, k) (err)
 //@ requires [gap_below_overflow] has(mint.Minter) && mint.Minter.PreviousBlockTime != nil ==> blocktime(ctx) - deref(mint.Minter.PreviousBlockTime) <= 62769647725999999
